@@ -96,7 +96,11 @@ EXC_CLASSES = ("InjectedError", "RuntimeError", "KeyError", "ValueError", "OSErr
 
 
 def injected_exception(fail, msg):
-    """The exception object to raise for the fault description ``fail`` ({"exc": class name, ...})."""
+    """The exception object to raise for the fault description ``fail`` ({"exc": class name, ...}).
+    Key "after_s" of ``fail`` (C19, "slow failing item"): the failing step first works for that many seconds -- the sleep
+    happens here, in the process and at the point where the fault is raised, after the item's start has been logged."""
+    if (fail or {}).get("after_s"):
+        time.sleep(float(fail["after_s"]))
     import builtins
     import errno
     import queue
@@ -224,6 +228,33 @@ def _delay_for(delay, key):
 
 def _identity(x):
     return x
+
+
+_WORKER_FAULT_DONE = {}
+
+
+def _worker_base():
+    """Called in the parent right before a stage starts its workers: the number multiprocessing gave to the process object
+    created last (creating -- not starting -- a Process draws the next number), so the stage's k-th worker gets base + k."""
+    import multiprocessing as mp
+    return mp.Process(target=_identity, args=(0,))._identity[-1]
+
+
+def _worker_fault_hits(fail, base):
+    """Fault description {"worker": k}: "the k-th worker process the stage started (1-based) fails at the first item it
+    handles" (C19: an error in ANY worker).  True exactly once, in that process; never in the parent (serial mode)."""
+    if not fail or fail.get("worker") is None:
+        return False
+    import multiprocessing as mp
+    ident = mp.current_process()._identity
+    if not ident or ident[-1] != base + int(fail["worker"]):
+        return False
+    pid = os.getpid()
+    if _WORKER_FAULT_DONE.get(pid):
+        return False
+    _WORKER_FAULT_DONE.clear()
+    _WORKER_FAULT_DONE[pid] = True
+    return True
 
 
 class _SlowPickle(object):
@@ -407,11 +438,16 @@ def _run_visit(case):
     delay = case.get("delay")
     fpos = _fail_pos(case)
 
+    base = _worker_base()
+
     def cb(pos, tile):
         key = (pos.n, pos.x, pos.y)
         log.write("S", key, _geom(tile))
         if key == fpos:
             raise injected_exception(case.get("fail"), "injected failure at leaf %s" % (key,))
+        if _worker_fault_hits(case.get("fail"), base):
+            log.write("F", key)
+            raise injected_exception(case.get("fail"), "injected failure in worker %s at leaf %s" % (case["fail"]["worker"], key))
         d = _delay_for(delay, key)
         if d:
             time.sleep(d)
@@ -428,11 +464,16 @@ def _run_walk(case):
     delay = case.get("delay")
     fpos = _fail_pos(case)
 
+    base = _worker_base()
+
     def cb(pos):
         key = (pos.n, pos.x, pos.y)
         log.write("S", key)
         if key == fpos:
             raise injected_exception(case.get("fail"), "injected failure at tile %s" % (key,))
+        if _worker_fault_hits(case.get("fail"), base):
+            log.write("F", key)
+            raise injected_exception(case.get("fail"), "injected failure in worker %s at tile %s" % (case["fail"]["worker"], key))
         d = _delay_for(delay, key)
         if d:
             time.sleep(d)
@@ -445,6 +486,7 @@ def _run_walk(case):
 
 def make_logging_pio(base_dir, fmt, log, delay=None, fail_pos=None, fail_on="R", fail=None):
     from toasty.pyramid import PyramidIO
+    base = _worker_base()      # the stage's workers are the next processes this (parent) process starts
 
     class LoggingPIO(PyramidIO):
         def read_image(self, pos, *a, **k):
@@ -452,6 +494,9 @@ def make_logging_pio(base_dir, fmt, log, delay=None, fail_pos=None, fail_on="R",
             log.write("R", key)
             if fail_on == "R" and key == fail_pos:
                 raise injected_exception(fail, "injected read failure at %s" % (key,))
+            if fail_on == "R" and _worker_fault_hits(fail, base):
+                log.write("F", key)
+                raise injected_exception(fail, "injected read failure in worker %s at %s" % (fail["worker"], key))
             d = _delay_for(delay, key)
             if d:
                 time.sleep(d)
